@@ -47,6 +47,7 @@ int main()
     {
         if (line.empty())
             continue;
+        vh::case_alarm(300); // per-case watchdog: a hang is the observation abort:timeout
         auto f = vh::fields(line);
         std::string topic = line.substr(0, line.find(' '));
         std::cerr << "case " << topic << "\n";
